@@ -972,6 +972,7 @@ package raft
 //@ func (r *Raft) leaderLoop
 //@   requires nonnil: r != nil
 //@   noinference
+//@   localonly
 //@   at call (*Raft).restoreUserSnapshot#1 assert refused_during_transfer: r.leaderState.leadershipTransferInProgress != 1
 //@   at call (*Raft).appendConfigurationEntry#1 assert gate: r.configurations.latestIndex == r.configurations.committedIndex &&
 //@              r.commitIndex >= r.leaderState.commitment.startIndex && r.leaderState.leadershipTransferInProgress != 1
@@ -1011,3 +1012,55 @@ package raft
 //@   ensures  queued_future_has_shutdown_escape: typeis(result, *leadershipTransferFuture) && sent(r.leadershipTransferCh) != old(sent(r.leadershipTransferCh)) ==> cast(result, *leadershipTransferFuture).ShutdownCh == r.shutdownCh
 //@   ensures  self_transfer_refused_without_queueing: id != nil && *id == r.localID ==> sent(r.leadershipTransferCh) == old(sent(r.leadershipTransferCh)) && typeis(result, *leadershipTransferFuture) && cast(result, *leadershipTransferFuture).responded
 //@   ensures  queued_means_sent: sent(r.leadershipTransferCh) != old(sent(r.leadershipTransferCh)) ==> typeis(result, *leadershipTransferFuture) && lastsent(r.leadershipTransferCh) == cast(result, *leadershipTransferFuture) && cast(result, *leadershipTransferFuture).errCh != nil
+
+// ---------------------------------------------------------------------------
+// Non-leader run loops (C17: every queue is answered in every state; C08: a non-leader answers
+// ErrNotLeader without dispatching; C01/C14: the candidate's tally and pre-vote gating).
+// The loops carry only the invariants written here (no inferred frame candidates).
+
+//@ spec func answered(d deferError) bool = d.responded || d.errCh == nil
+
+//@ func (r *Raft) runFollower
+//@   requires nonnil: r != nil && r.logger != nil && typeis(r.conf.v, Config)
+//@   noinference
+//@   localonly
+//@   loop 1 step apply_answered: received(r.applyCh) != old(received(r.applyCh)) ==> answered(lastreceived(r.applyCh).deferError)
+//@   loop 1 step verify_answered: received(r.verifyCh) != old(received(r.verifyCh)) ==> answered(lastreceived(r.verifyCh).deferError)
+//@   loop 1 step config_change_answered: received(r.configurationChangeCh) != old(received(r.configurationChangeCh)) ==> answered(lastreceived(r.configurationChangeCh).deferError)
+//@   loop 1 step restore_answered: received(r.userRestoreCh) != old(received(r.userRestoreCh)) ==> answered(lastreceived(r.userRestoreCh).deferError)
+//@   loop 1 step transfer_answered: received(r.leadershipTransferCh) != old(received(r.leadershipTransferCh)) ==> answered(lastreceived(r.leadershipTransferCh).deferError)
+//@   loop 1 step configurations_answered: received(r.configurationsCh) != old(received(r.configurationsCh)) ==> answered(lastreceived(r.configurationsCh).deferError)
+//@   loop 1 step bootstrap_answered: received(r.bootstrapCh) != old(received(r.bootstrapCh)) ==> answered(lastreceived(r.bootstrapCh).deferError)
+//@   loop 1 step one_request_per_iteration: received(r.applyCh) <= old(received(r.applyCh)) + 1 && received(r.verifyCh) <= old(received(r.verifyCh)) + 1
+//@   at call (*deferError).respond#1 assert not_leader_answer: arg1 == ErrNotLeader
+//@   at call (*deferError).respond#2 assert not_leader_answer: arg1 == ErrNotLeader
+//@   at call (*deferError).respond#3 assert not_leader_answer: arg1 == ErrNotLeader
+//@   at call (*deferError).respond#4 assert not_leader_answer: arg1 == ErrNotLeader
+//@   at call (*deferError).respond#5 assert not_leader_answer: arg1 == ErrNotLeader
+
+//@ func (r *Raft) runCandidate
+//@   requires nonnil: r != nil && r.logger != nil && typeis(r.conf.v, Config)
+//@   noinference
+//@   localonly
+//@   loop 1 step apply_answered: received(r.applyCh) != old(received(r.applyCh)) ==> answered(lastreceived(r.applyCh).deferError)
+//@   loop 1 step verify_answered: received(r.verifyCh) != old(received(r.verifyCh)) ==> answered(lastreceived(r.verifyCh).deferError)
+//@   loop 1 step config_change_answered: received(r.configurationChangeCh) != old(received(r.configurationChangeCh)) ==> answered(lastreceived(r.configurationChangeCh).deferError)
+//@   loop 1 step restore_answered: received(r.userRestoreCh) != old(received(r.userRestoreCh)) ==> answered(lastreceived(r.userRestoreCh).deferError)
+//@   loop 1 step transfer_answered: received(r.leadershipTransferCh) != old(received(r.leadershipTransferCh)) ==> answered(lastreceived(r.leadershipTransferCh).deferError)
+//@   loop 1 step configurations_answered: received(r.configurationsCh) != old(received(r.configurationsCh)) ==> answered(lastreceived(r.configurationsCh).deferError)
+//@   loop 1 step bootstrap_answered: received(r.bootstrapCh) != old(received(r.bootstrapCh)) ==> answered(lastreceived(r.bootstrapCh).deferError)
+//@   ensures  transfer_privilege_reset: r.candidateFromLeadershipTransfer.v == 0
+//@   loop 1 invariant tally_below_quorum: 0 <= grantedVotes && grantedVotes < votesNeeded && 0 <= preVoteGrantedVotes && preVoteGrantedVotes < votesNeeded
+//@   loop 1 step tally_monotone: prev(grantedVotes) <= grantedVotes && grantedVotes <= prev(grantedVotes) + 1
+//@   loop 1 step tally_counts_a_received_vote: grantedVotes == prev(grantedVotes) + 1 ==> received(prev(voteCh)) == old(received(prev(voteCh))) + 1
+//@   loop 1 step tally_counts_grants_only: grantedVotes == prev(grantedVotes) + 1 ==> lastreceived(prev(voteCh)).Granted
+//@   loop 1 step tally_counts_current_term_only: grantedVotes == prev(grantedVotes) + 1 ==> lastreceived(prev(voteCh)).Term <= r.currentTerm
+//@   at call (*deferError).respond#1 assert not_leader_answer: arg1 == ErrNotLeader
+//@   at call (*deferError).respond#2 assert not_leader_answer: arg1 == ErrNotLeader
+//@   at call (*deferError).respond#3 assert not_leader_answer: arg1 == ErrNotLeader
+//@   at call (*deferError).respond#4 assert not_leader_answer: arg1 == ErrNotLeader
+//@   at call (*deferError).respond#5 assert not_leader_answer: arg1 == ErrNotLeader
+//@   at call (*deferError).respond#7 assert cannot_bootstrap: arg1 == ErrCantBootstrap
+//@   at call (*Raft).electSelf#1 assert prevote_skipped_only_when_disabled_or_transfer: r.preVoteDisabled || r.candidateFromLeadershipTransfer.v != 0
+//@   at call (*Raft).electSelf#2 assert term_bumped_only_after_prevote_quorum: preVote.Granted && prev(preVoteGrantedVotes) + 1 >= votesNeeded
+//@   at call (*Raft).setState#3 assert leader_only_with_quorum_of_grants: grantedVotes >= votesNeeded
